@@ -9,7 +9,7 @@ from h4verif import workloads as wl
 PROPERTY = "C16"
 LEVEL = "fault_enumeration"
 NEED = ("h4x",)
-RULE = ("workload library of 11 write workloads (SD dimension metadata incl. a backward-compatible dimension, an old-style RLE raster rewritten through GR, H elements with linked/external growth and new DD blocks, SD basic, "
+RULE = ("workload library of 12 write workloads (H elements with the descriptor cache off, SD dimension metadata incl. a backward-compatible dimension, an old-style RLE raster rewritten through GR, H elements with linked/external growth and new DD blocks, SD basic, "
         "SD chunked+deflate and compressed, SD unlimited, Vdata/Vgroup with attributes, GR image+palette+compressed "
         "image, annotations, SD reopen with metadata rewrite) and 3 read-only scans; the fault-free run counts the N "
         "stdio calls (fopen/fread/fwrite/fseek/ftell/fflush/fclose) the library makes on its files; then for every "
